@@ -122,6 +122,17 @@ func c05Setup(prm c05Params) func(c *fw.Ctx, name string) explore.Setup {
 						}
 					})
 				}
+				if prm.Window > 0 {
+					w.GoHarness("drainer", false, func() {
+						for i := 0; i < 40; i++ {
+							// wait until the window is full, then open it again
+							if !st.p.WaitOut("window-full", func(out []byte) bool { return len(out)-st.p.Taken >= st.p.Window }) {
+								return
+							}
+							st.p.Drain(-1)
+						}
+					})
+				}
 				if prm.Pinger {
 					w.GoHarness("reader", false, func() {
 						for {
@@ -442,6 +453,8 @@ func c05Scenarios(tier string) []scenario {
 		big := 5000
 		// W2: a 10-byte Write against a Write whose frame spans two transport writes
 		add(c05Params{Name: "W2", K: k, Writers: [][]wop{{{Chunks: []int{10}}}, {{Text: true, Chunks: []int{big}}}}}, P(2), P(-1))
+		// WB: as W2 but the transport accepts 1500 bytes at a time and blocks until the peer drains
+		add(c05Params{Name: "WB", K: k, Window: 1500, Writers: [][]wop{{{Chunks: []int{10}}}, {{Text: true, Chunks: []int{big}}}}}, P(1), P(2))
 		// WS: Write against a streaming Writer with two chunks
 		add(c05Params{Name: "WS", K: k, Writers: [][]wop{{{Chunks: []int{10}}}, {{Stream: true, Text: true, Chunks: []int{5, 5}}}}}, P(2), P(-1))
 		// W3: three writers, the first sends two messages (per-writer order)
